@@ -42,6 +42,7 @@ struct Opts {
     std::string findings, evidence_dir, replay_dir, tmp_dir;
     bool no_evidence = false;
     int shrink_budget = 400;
+    bool stop_early = false;   // selftests: end the batch at the first violation
 };
 
 struct Outcome {
@@ -530,6 +531,7 @@ static int run_batch() {
 
     int live = W;
     while (live > 0) {
+        if (O.stop_early && !R.first_viol.empty()) { aborted = true; break; }
         fd_set rf; FD_ZERO(&rf); int mx = -1;
         for (auto &w : ws) if (w.fd >= 0) { FD_SET(w.fd, &rf); mx = std::max(mx, w.fd); }
         if (mx < 0) break;
@@ -563,12 +565,12 @@ static int run_batch() {
                 crashes.push_back(Crash{inflight - 1, std::string(slots[w].pin)});
                 done_k = (inflight - 1 - (uint64_t)w) / (uint64_t)W + 1;
             }
-            if (crashes.size() >= 64) { aborted = true; --live; continue; }
+            if (crashes.size() >= 64 || O.stop_early) { aborted = true; --live; continue; }
             slots[w].inflight = 0;
             spawn(w, done_k);
         }
     }
-    if (aborted) for (auto &w : ws) if (w.fd >= 0) { kill(w.pid, SIGKILL); close(w.fd); waitpid(w.pid, nullptr, 0); }
+    if (aborted) for (auto &w : ws) if (w.fd >= 0) { kill(w.pid, SIGKILL); close(w.fd); waitpid(w.pid, nullptr, 0); w.fd = -1; }
 
     double wall_batch = std::chrono::duration<double>(clk::now() - t0).count();
 
@@ -767,6 +769,7 @@ int sim_main(int argc, char **argv, Harness &h) {
         else if (a == "--replay-dir") O.replay_dir = next();
         else if (a == "--no-evidence") O.no_evidence = true;
         else if (a == "--shrink-budget") O.shrink_budget = atoi(next().c_str());
+        else if (a == "--stop-early") O.stop_early = true;
         else { fprintf(stderr, "unknown option %s\n", a.c_str()); return 2; }
     }
     (void)tier_given;
